@@ -700,6 +700,18 @@ func noReturnBlock(b *ssa.BasicBlock) bool {
 }
 
 // Sites confirmed by reading that the rules above cannot decide (one line of reason each).
+// tableRowIndexFuncs: emitters that index the statement's operand list with a position taken
+// from the matched row of the instruction table (`#k` names an operand position of the form; the
+// matchers accept a form only when it has as many operands as the statement — rule X13 guards
+// that; rows of the hand-written fallback table are range-checked by rule T5; rows of the
+// embedded JSON table are data of the trusted base).
+var tableRowIndexFuncs = map[string]string{
+	"internal/codegen.handleMOV":              "operand position from the matched table row (+r addend / immediate)",
+	"internal/codegen.generateArithmeticCode": "operand position from the matched table row (+r addend / immediate)",
+	"internal/codegen.generateLogicalCode":    "operand position from the matched table row (+r addend / immediate)",
+	"internal/codegen.handleIMUL":             "operand position from the matched table row, upper bound tested; Atoi of `#k` text is never negative for table rows",
+}
+
 var confirmedPanicFree = map[string]string{
 	"L13|(*internal/filefmt.CoffFormat).Write|finalBytes[0:coffHeaderSize]":                                    "the buffer starts with a placeholder of coffHeaderSize + 3×coffSectionHeaderSize bytes written before any data (rule P4 checks that order)",
 	"L13|(*internal/filefmt.CoffFormat).Write|finalBytes[currentOffset:currentOffset + coffSectionHeaderSize]": "as above; currentOffset runs over the three section-header slots of that placeholder",
@@ -711,13 +723,6 @@ var confirmedPanicFree = map[string]string{
 	// form; the matchers accept a form only when it has as many operands as the statement (rule X13 guards
 	// that); rows of the hand-written fallback table are range-checked by rule T5; rows of the embedded
 	// JSON table are data of the trusted base
-	"V13|internal/codegen.handleMOV|operands[operandIndex]":              "operand position from the matched table row (+r addend)",
-	"V13|internal/codegen.handleMOV|operands[immIndex]":                  "operand position from the matched table row (immediate)",
-	"V13|internal/codegen.generateArithmeticCode|operands[operandIndex]": "operand position from the matched table row (+r addend)",
-	"V13|internal/codegen.generateArithmeticCode|operands[immIndex]":     "operand position from the matched table row (immediate)",
-	"V13|internal/codegen.generateLogicalCode|operands[operandIndex]":    "operand position from the matched table row (+r addend)",
-	"V13|internal/codegen.generateLogicalCode|operands[immIndex]":        "operand position from the matched table row (immediate)",
-	"V13|internal/codegen.handleIMUL|params.Operands[operandIndex]":      "operand position from the matched table row, upper bound tested; Atoi of `#k` text is never negative for table rows",
 }
 
 // ---------------------------------------------------------------------------------------
@@ -773,6 +778,12 @@ func ruleV13(c *Ctx) {
 				if why, ok := specialIndexProof(f, x, idx, b); ok {
 					auto++
 					c.ok("V13", key, c.L.Pos(instrPos(in)), why)
+					continue
+				}
+				// operand positions read from the matched row of the instruction table, in the emitters
+				// where that was confirmed by reading — whatever the locals are called today
+				if reason, ok := tableRowIndexFuncs[shortName(f)]; ok && isStringSliceType(x.Type()) && fromTableRow(idx, map[ssa.Value]bool{}, 0) {
+					c.ok("V13", key, c.L.Pos(instrPos(in)), "confirmed by reading: "+reason)
 					continue
 				}
 				if reason, ok := confirmedPanicFree["V13|"+strings.SplitN(key, "#", 2)[0]]; ok {
